@@ -36,3 +36,11 @@ VARIANTS += [
          [(WK8, "            and (self.current is not open_at_entry)\n", "            and False\n")],
          ("C08.6", "open-trace-left-by-loop"), ("C08",)),
 ]
+VARIANTS += [
+    fire("c08-inside-test-polarity",
+         [(WK8, "            if address != self.objective[: len(address)]:", "            if address == self.objective[: len(address)]:")],
+         ("C08.5", "TraceVisitor.visit_BlockStatement:inside-test"), ("C08",)),
+    fire("c08-zero-loop-skip-polarity",
+         [(WK8, "            while self.objective and self.objective[: len(address)] == address:\n", "            while self.objective and self.objective[: len(address)] != address:\n")],
+         ("C08.5", "TraceVisitor.visit_LoopStatement:inside-test"), ("C08",)),
+]
